@@ -16,6 +16,7 @@ the loop/pragma skeleton of the level-scheduled kernels:
     fill        the other `#pragma omp parallel` region of the constructor (step 4, thread-local copies): pragma,
                 team stride, loop over the virtual threads, task loop with the re-basing of t.beg/t.end
     teamSize    the body of team_size() (the stride of every tid loop: the size of the ACTUAL team)
+    threadId    the body of thread_id() (the first virtual thread of a thread: its number in the team)
 and writes lean/Amgcl/Generated/SyncSkeleton.lean with
     theorem gs_skeleton_ok  : gsExtracted  = Amgcl.Sched.gsExpectedSkeleton  := by decide
     theorem ilu_skeleton_ok : iluExtracted = Amgcl.Sched.iluExpectedSkeleton := by decide
@@ -187,10 +188,14 @@ def extract(path, struct_re, struct_name, run_fn, serial_re):
     if not mt: raise ParseError("team_size() near " + struct_name)
     i = mt.end() - 1; j = match_close(src, i, "{", "}")
     team_size = norm(src[i + 1:j])
+    mt = re.search(r"\bstatic\s+int\s+thread_id\s*\(\s*\)\s*\{", src)
+    if not mt: raise ParseError("thread_id() near " + struct_name)
+    i = mt.end() - 1; j = match_close(src, i, "{", "}")
+    thread_id = norm(src[i + 1:j])
     # serial fallback predicate (in the enclosing class)
     ms = re.search(serial_re, src, re.S)
     if not ms: raise ParseError("serial fallback predicate near " + struct_name)
-    return {"run": run, "serialPred": norm(ms.group(1)), "nthreads": nthreads, "chunking": chunking, "fill": fill, "teamSize": team_size}
+    return {"run": run, "serialPred": norm(ms.group(1)), "nthreads": nthreads, "chunking": chunking, "fill": fill, "teamSize": team_size, "threadId": thread_id}
 
 
 def flatten_text(node):
@@ -207,8 +212,8 @@ def lean_str(s):
 
 def lean_skel(name, sk):
     def lst(ls): return "[" + ",\n     ".join("(%d, %s)" % (d, lean_str(t)) for d, t in ls) + "]"
-    return ("def %s : Amgcl.Sched.Skeleton where\n  run :=\n    %s\n  serialPred := %s\n  nthreads := %s\n  chunking :=\n    %s\n  fill :=\n    %s\n  teamSize := %s\n"
-            % (name, lst(sk["run"]), lean_str(sk["serialPred"]), lean_str(sk["nthreads"]), lst(sk["chunking"]), lst(sk["fill"]), lean_str(sk["teamSize"])))
+    return ("def %s : Amgcl.Sched.Skeleton where\n  run :=\n    %s\n  serialPred := %s\n  nthreads := %s\n  chunking :=\n    %s\n  fill :=\n    %s\n  teamSize := %s\n  threadId := %s\n"
+            % (name, lst(sk["run"]), lean_str(sk["serialPred"]), lean_str(sk["nthreads"]), lst(sk["chunking"]), lst(sk["fill"]), lean_str(sk["teamSize"]), lean_str(sk["threadId"])))
 
 
 HEADER = """-- GENERATED by tools/sync_skeleton.py from $AMGCL_REPO/amgcl/relaxation/{gauss_seidel.hpp,detail/ilu_solve.hpp}%s — do not edit; regenerated on every run
